@@ -29,7 +29,7 @@ pub fn def() -> PropDef {
 }
 
 fn gen(rng: &mut Rng, tier: Tier) -> Value {
-  json!({ "spec": super::c02::ascii_tree_case(rng, tier) })
+  json!({ "spec": super::c02::ascii_tree_case(rng, tier), "prelude": super::gen_prelude(rng) })
 }
 
 pub fn check_stream_order(rec: &Rec, mode: &str, obs: &mut Obs) -> usize {
@@ -81,6 +81,7 @@ pub fn check_stream_order(rec: &Rec, mode: &str, obs: &mut Obs) -> usize {
 fn check(case: &Value, obs: &mut Obs) {
   let spec = super::spec_of(case);
   let src = build_box(&spec);
+  super::run_prelude(case, &src, obs);
   let source = src.source().to_string();
   let end = end_position(&source);
   let mut mapped_segments = 0;
